@@ -253,7 +253,7 @@ class X39(GI.XCheck):
         o = small['opts']
         detail = (f'ep={small["ep"]} replace_by_value={o.get("replace_by_value")} abort={o.get("abort")} roles={o.get("roles")} '
                   f'succession={bool(o.get("succession"))} '
-                  f'necessary flags={"+".join(GI.on_flags(small)) or "none"}: ') + detail
+                  f'flags left on by the (budgeted) ablation reducer={"+".join(GI.on_flags(small)) or "none"}: ') + detail
         ctx.fail(self.signature(small, r['coarse']), {'spec': small}, detail)
 
     def check_case(self, seedspec, ctx):
@@ -277,7 +277,16 @@ evaluate, reduce_failure, signature = X.evaluate, X.reduce_failure, X.signature
 
 
 def run_shard(ctx):
-    ctx.given(GEN.specs(), X.check_case, ctx.scale(96, 3200), shrink=False)
+    # Hypothesis starts every run with the same special integers (0, 2**48 - 2, small numbers): xor the drawn integer with a
+    # salt derived from (seed, shard) so that the shards do not all begin with the same specs
+    from hypothesis import strategies as st
+    from ..core import derive_seed
+    mask = (1 << 48) - 1
+    salt = derive_seed(ctx.seed, 'C39-spec-salt') & mask
+    sizes = GEN.SIZES_THOROUGH if ctx.thorough else GEN.SIZES      # thorough: more generated filler statements per routine
+    strat = st.integers(0, mask).map(lambda x: GI.expand_spec(x ^ salt, GEN.EPS, GEN.FLAGS, GEN.STREAMS, sizes, GEN.OPTS,
+                                                              flag_pct=50 if ctx.thorough else 45))
+    ctx.given(strat, X.check_case, ctx.scale(320, 6000), shrink=False)
 
 
 def replay(case, ctx):
